@@ -29,7 +29,7 @@ import mixgen
 import c09
 
 META = {
-    'text': 'Theorems (Lean 4; the models carry the code variant of each former defect site, the harness determines on every run which variant the tree under test is — evidence field code_variant; since commits 04684b2 / 9eabe46 both sites are REPAIRED and the claimed theorems are the FULL statements query_frame and blowout_refines_fresh): (a) over explicit-store models of the three aliasing sites the property names — the interaction matrix handed to dbm_p.coefs by reference, the depth array of ambient.get_values, the FluidParticle.K warm-start cache — frame theorems (caller-visible arrays unchanged) where true (calc_delta <= 0; get_values as repaired), REFUTATION where false for the code as written (calc_delta > 0 overwrites FluidMixture.delta; exact description of what is overwritten), and repeat-call equality of every query after ANY history of queries (by induction over the history; for mixed-phase particles under the stated flash-stability hypothesis, refuted without it); (b) over a model of blowout.Blowout as parameters + flags (update, new_oil, constructor-only q_type), for every sequence of update calls over all 13 update methods: the refreshed object equals the object constructed with the final parameters provided the sequence does not change whether num_oil_elements is positive; the unrestricted statement is REFUTED (witness update_num_oil_elements(0)). Real code: seeded random histories of 1-12 queries on one mixture / particle / profile object with deep snapshots of every argument array and of the attribute dict around every call and repeated queries; random sequences of 1-8 Blowout update calls compared attribute by attribute with a fresh Blowout; the models are tied to the code by replaying the recorded library calls / flags.',
+    'text': 'Theorems (Lean 4; the models carry the code variant of each former defect site, the harness determines on every run which variant the tree under test is — evidence field code_variant; since commits 04684b2 / 9eabe46 both sites are REPAIRED and the claimed theorems are the FULL statements query_frame and blowout_refines_fresh): (a) over explicit-store models of the three aliasing sites the property names — the interaction matrix handed to dbm_p.coefs by reference, the depth array of ambient.get_values, the FluidParticle.K warm-start cache — frame theorems (caller-visible arrays unchanged) where true (calc_delta <= 0; get_values as repaired) — NOTE: for the REPAIRED variants the frame theorems query_frame, get_values_frame and get_values_repeat are DEFINITIONAL (the repaired model copies by construction, the proofs are rfl): for the tree as it stands, purity of the arguments / parameters and the mixture / profile repeat clauses are decided on the REAL code by the snapshot histories (H), not by these theorems; the theorems with content are the refutations for the former text, the closed form of what coefs overwrote, the history induction for the aliased variant, answer_indep_of_cache/history and the Blowout invariant —, REFUTATION where false for the code as written (calc_delta > 0 overwrites FluidMixture.delta; exact description of what is overwritten), and repeat-call equality of every query after ANY history of queries (by induction over the history; for mixed-phase particles under the stated flash-stability hypothesis, refuted without it); (b) over a model of blowout.Blowout as parameters + flags (update, new_oil, constructor-only q_type), for every sequence of update calls over all 13 update methods: the refreshed object equals the object constructed with the final parameters provided the sequence does not change whether num_oil_elements is positive; the unrestricted statement is REFUTED (witness update_num_oil_elements(0)). Real code: seeded random histories of 1-12 queries on one mixture / particle / profile object with deep snapshots of every argument array and of the attribute dict around every call and repeated queries; random sequences of 1-8 Blowout update calls compared attribute by attribute with a fresh Blowout; the models are tied to the code by replaying the recorded library calls / flags.',
     'note': 'Trusted: Lean kernel + 3 standard axioms; hand transcriptions Model/Blowout.lean, Model/Particle09.lean (validated every run by correspondence); the snapshot / comparison code of the harness. NOT modelled: the equations of state and everything Blowout._update derives (library parameters). Purity of the queries that are not among the three named aliasing sites is SAMPLED by the snapshot histories only. Upstream the warm-start cache is DEAD code (the guard of dbm.equil_MM, isinstance(np.sum(K_0), type(np.nan)) is always true, so the cached FluidParticle.K is stored but never used as an initial guess): on the tree as it stands the hypothesis FlashStable of answer_indep_of_cache / answer_indep_of_history holds exactly and the theorem is exercised only through its hypothesis; that the hypothesis holds (answers independent of the query history, in particular across compositions with different zero-mass patterns) is what the cache histories SAMPLE by comparing every answer with a freshly constructed particle. Scope: generated masses are non-negative (the deliberate in-place clipping m[m<0]=0 of SingleParticle.properties is outside the quantifier); FluidParticle.K is a cache, not a physical parameter.',
     'technique': 'Lean 4 proof over hand-written explicit-store / flag-machine models (induction over call histories) + snapshot histories and fresh-object comparison on the real code + oracle-table correspondence',
 }
@@ -48,7 +48,9 @@ RULE = ('histories of 1-12 queries on ONE object: FluidMixture of 1-5 database c
         'methods (first every method once as a single-call sequence and the oil bins switched off / on / off-and-back for a live oil), 40 % of the random sequences switch num_oil_elements or '
         'num_gas_elements to zero (half of them back). A history is '
         'non-trivial when its (object kind, method sequence, state pattern) is new')
-LEVEL_NOTE = ('theorems about hand-written store / flag models (all histories, by induction); tied to /repo by snapshot histories and '
+LEVEL_NOTE = ('theorems about hand-written store / flag models (all histories, by induction); for the repaired variants of coefs and get_values the '
+              'frame / repeat theorems are definitional (rfl) and those clauses are decided by the snapshot histories on the real code (H); 8 of the 17 '
+              'pinned theorems concern former (defective) variants that no longer exist in /repo; tied to /repo by snapshot histories and '
               'recorded-call correspondence (sampled); purity of queries outside the three modelled aliasing sites is sampled only')
 
 
@@ -64,7 +66,10 @@ def extra(ctx):
                 'TamocV.Props.C19.query_frame_partial + not_query_frame (frame refuted for this tree)',
                 'TamocV.Props.C19.blowout_refines_fresh (FULL statement, every update sequence)' if v['revisit'] else
                 'TamocV.Props.C19.blowout_refines_fresh_partial + not_blowout_refines_fresh (refuted for this tree)',
-                'get_values_frame, query_answer_indep_of_history, answer_indep_of_history (full; the last under FlashStable for mixed-phase particles)'])}
+                'get_values_frame, query_answer_indep_of_history, answer_indep_of_history (the last under FlashStable for mixed-phase particles)']),
+            'definitional_for_the_repaired_variant': 'query_frame, get_values_frame, get_values_repeat are rfl on the repaired model: argument / parameter purity and the mixture / profile repeat clauses are decided by the snapshot histories on the real code (H)',
+            'pinned_theorems_about_former_variants': '8 of 17 (query_frame_partial, query_store_after, not_query_frame, store_after_history [content only for the aliased variant], get_values_in_place_not_frame, blowout_refines_fresh_partial, not_blowout_refines_fresh, qType_constructor_only)',
+            'flash_warm_start': 'live' if c09.WARM['live'] else 'dead', 'mixed_phase_tolerance': c09.mixed_tol()}
 
 
 def audit_files():
@@ -75,9 +80,6 @@ def audit_files():
 # ---------------------------------------------------------------------------
 # deep snapshots
 # ---------------------------------------------------------------------------
-
-SKIP_TYPES = ('Model', 'FluidMixture', 'FluidParticle', 'InsolubleParticle', 'Profile')
-
 
 def snap(v, depth=0):
     """deep, comparable copy of an argument / attribute value"""
@@ -94,6 +96,9 @@ def snap(v, depth=0):
         return ('xr', {str(k): np.array(v[k].values, copy=True) for k in list(v.data_vars) + list(v.coords)})
     if tn == 'interp1d':
         return ('ip', np.array(v.x, copy=True), np.array(v.y, copy=True))
+    if depth < 2 and hasattr(v, '__dict__') and not callable(v) and not isinstance(v, type):
+        # a nested object (e.g. a dbm object held by a wrapper): compared by VALUE of its attributes
+        return ('ob', tn, {k: snap(x, depth + 2) for k, x in vars(v).items()})
     return ('o', tn, id(v))
 
 
@@ -116,6 +121,8 @@ def same(a, b):
         return a[1].keys() == b[1].keys() and all(_arr_eq(a[1][k], b[1][k]) for k in a[1])
     if t == 'ip':
         return _arr_eq(a[1], b[1]) and _arr_eq(a[2], b[2])
+    if t == 'ob':
+        return a[1] == b[1] and a[2].keys() == b[2].keys() and all(same(a[2][k], b[2][k]) for k in a[2])
     return a[1:] == b[1:]
 
 
@@ -384,8 +391,8 @@ def particle_histories(ctx, r, n, lines, owners):
                 flatout = c09.flat(tuple(out))
                 rk = (method, sid)
                 if rk in first:
-                    ctx.count('repeated query compared' + (' (mixed-phase, flash tolerance)' if mixed else ''))
-                    tol = TOL['flash_fugacity'] if mixed else 0.
+                    ctx.count('repeated query compared' + (' (mixed-phase)' if mixed else ''))
+                    tol = c09.mixed_tol() if mixed else 0.
                     if not close(flatout, first[rk][1], tol):
                         ctx.violation('repeat-differs:particle.%s' % method,
                                       'the same particle query asked again later in the history gives a different answer',
@@ -527,7 +534,7 @@ def cache_histories(ctx, r, n):
                 if fk == 'mix':
                     stats['two_phase'] += 1
                     ctx.count('... of which two-phase at the call state')
-            if not close(got, ref, TOL['flash_fugacity']):
+            if not close(got, ref, c09.mixed_tol()):
                 worst = max([relerr(a, b) for a, b in zip(got, ref) if math.isfinite(a) and math.isfinite(b)] + [0.])
                 ctx.violation('cache-leak:particle.%s' % method,
                               'the answer of a mixed-phase FluidParticle query depends on the queries made before on the same object '
@@ -536,7 +543,7 @@ def cache_histories(ctx, r, n):
                               dict(object=descr, history=list(hist), failing_call=len(hist) - 1, method=method,
                                    masses=[float(v) for v in m], T=T, P=P, Sa=Sa, Ta=Ta, flash_at_call_state=fk,
                                    answer_on_history_object=got, answer_on_fresh_object=ref, worst_relative_difference=worst,
-                                   tolerance=TOL['flash_fugacity']))
+                                   tolerance=c09.mixed_tol()))
             prev = ci
         done += 1
         ctx.count('cache history (one fp_type=2 particle, interleaved zero patterns)')
@@ -635,6 +642,7 @@ def detect_variants(ctx):
     """which text of the defect sites the tree under test has (Lean witnesses replayed on the real code)"""
     from tamoc import dbm, blowout
     c09.detect_code_variant(ctx)
+    c09.detect_warm_start(ctx)
     with S.quiet():
         fm = dbm.FluidMixture(['methane', 'n-decane'], delta_groups={})
         store = np.zeros((2, 2))
@@ -655,6 +663,48 @@ def detect_variants(ctx):
                       're-evaluates q_type (repaired)' if VARIANT['revisit'] else 'leaves q_type as chosen in __init__ (as first read)'))
 
 
+def pr_pure(T, fm):
+    """independent re-statement (harness) of the pure-component Peng-Robinson coefficients of dbm_p.coefs"""
+    from tamoc import dbm_p
+    RU = dbm_p.RU
+    om = np.asarray(fm.omega, dtype=float)
+    mu = np.where(om > 0.49, 0.379642 + 1.48503 * om - 0.164423 * om ** 2 + 0.016666 * om ** 3,
+                  0.37464 + 1.54226 * om - 0.26992 * om ** 2)
+    alpha = (1. + mu * (1. - np.sqrt(T / fm.Tc))) ** 2
+    aTk = 0.45724 * RU ** 2 * fm.Tc ** 2 / fm.Pc * alpha
+    bk = 0.0778 * RU * fm.Tc / fm.Pc
+    return aTk, bk, RU
+
+
+def gc_independent(T, fm):
+    """the Privat-Jaubert group-contribution coefficients, computed by the harness (vectorised, NaN terms skipped as in the
+    routine) — NOT read back from what the routine wrote"""
+    nc = len(fm.M)
+    aTk, bk, _RU = pr_pure(T, fm)
+    g, A, B = np.asarray(fm.delta_groups, dtype=float), np.asarray(fm.Aij, dtype=float), np.asarray(fm.Bij, dtype=float)
+    with np.errstate(all='ignore'):
+        E = (298.15 / T) ** (B / A - 1.)
+    gc = np.zeros((nc, nc))
+    for j in range(1, nc):
+        for i in range(j):
+            d = g[i, :] - g[j, :]
+            with np.errstate(all='ignore'):
+                s1 = np.nansum(np.outer(d, d) * A * E)
+            gc[i, j] = -(0.5 * s1 + (np.sqrt(aTk[i]) / bk[i] - np.sqrt(aTk[j]) / bk[j]) ** 2) / \
+                (2. * np.sqrt(aTk[i] * aTk[j]) / (bk[i] * bk[j]))
+    return gc
+
+
+def A_from_delta(T, P, m, fm, delta):
+    """the non-dimensional mixture coefficient A that the mixing rule gives for an interaction matrix `delta`"""
+    aTk, _bk, RU = pr_pure(T, fm)
+    n = np.asarray(m, dtype=float) / fm.M
+    yk = n / n.sum()
+    s = np.sqrt(np.outer(aTk, aTk)) * (1. - delta)
+    aT = float(yk @ s @ yk)
+    return aT * P / (RU ** 2 * T ** 2)
+
+
 def coefs_cases(ctx, r, n, lines, owners):
     from tamoc import dbm
     lib = dbm.dbm_f
@@ -662,19 +712,17 @@ def coefs_cases(ctx, r, n, lines, owners):
         nc = r.randint(1, 5)
         fm, d = mixgen.mixture(r, nmin=nc, nmax=nc, delta_mode=r.choice(['groups', 'groups', 'zero', 'const']), peneloux=False)
         store = np.array([[r.uniform(-0.1, 0.2) for _j in range(nc)] for _i in range(nc)])      # incl. a non-zero diagonal
+        store = 0.5 * (store + store.T)                     # a user-supplied interaction matrix is symmetric
         before = store.copy()
         T, P = r.uniform(273.15, 320.), math.exp(r.uniform(math.log(1e5), math.log(4e7)))
         m = mixgen.masses(r, nc)
         with S.quiet():
-            lib.coefs(T, P, m, fm.M, fm.Pc, fm.Tc, fm.omega, store, fm.Aij, fm.Bij, fm.delta_groups, fm.calc_delta)
-        # oracle for the group-contribution values: what the routine wrote above the diagonal (only visible when
-        # the routine writes into the caller's matrix; on the repaired code the store must simply be unchanged)
-        gc = np.zeros((nc, nc))
-        for i in range(nc):
-            for j in range(i + 1, nc):
-                gc[i, j] = store[i, j]
+            A_real = float(lib.coefs(T, P, m, fm.M, fm.Pc, fm.Tc, fm.omega, store, fm.Aij, fm.Bij, fm.delta_groups,
+                                     fm.calc_delta)[0])
+        gc = gc_independent(T, fm) if fm.calc_delta > 0 else np.zeros((nc, nc))
         lines.append(req('Pur19.coefs', int(VARIANT['aliased']), int(fm.calc_delta > 0), nc, before.ravel(), gc.ravel()))
-        owners.append(('coefs', store.ravel().tolist(), int(fm.calc_delta > 0), d))
+        owners.append(('coefs', store.ravel().tolist(), int(fm.calc_delta > 0), d,
+                       dict(T=T, P=P, m=m, fm=fm, A_real=A_real, nc=nc, before=before.ravel().tolist())))
         ctx.count('coefs calc_delta=%+d' % fm.calc_delta)
         ctx.evaluations += 1
 
@@ -780,6 +828,7 @@ def blowout_sequences(ctx, r, n, lines, owners):
         return orig_get_oil(substance, q_oil, gor, ca, fp_type)
     blowout.dbm_utilities.get_oil = get_oil
     ctx.planned['blowout'] = n
+    ctx.blow_last, ctx.blow_flips = set(), 0
     try:
         for seq in range(n):
             init = dict(z0=r.uniform(200., 1400.), d0=r.uniform(0.05, 0.4), substance=r.randrange(len(SUBSTANCES)),
@@ -799,15 +848,19 @@ def blowout_sequences(ctx, r, n, lines, owners):
                 # dirty flag is invisible whenever another call in the sequence sets it)
                 ops = [(OPS[seq], op_value(r, OPS[seq], waters, currents))]
                 init['water'] = r.randrange(len(prfs))
-            elif seq < len(OPS) + 3:
-                # sweep: the oil bins switched off / on / off-and-back as the only calls, for a live oil (gas present at
-                # standard conditions, so that both flow-rate conventions are defined)
+                init['num_oil_elements'] = max(init['num_oil_elements'], 1)
+            elif seq < len(OPS) + 4:
+                # sweep: the oil bins switched off / on / off-and-back / off after a flow-rate change, as the only calls, for a
+                # live oil (gas present at standard conditions, so that both flow-rate conventions are defined)
                 init['water'] = r.randrange(len(prfs))
                 init['gor'] = r.uniform(500., 2500.)
                 k = seq - len(OPS)
                 init['num_oil_elements'] = 0 if k == 1 else r.randint(1, 4)
+                if k == 3:
+                    init['substance'] = 2
                 ops = [[('num_oil_elements', 0)], [('num_oil_elements', r.randint(1, 4))],
-                       [('num_oil_elements', 0), ('num_oil_elements', r.randint(1, 4))]][k]
+                       [('num_oil_elements', 0), ('num_oil_elements', r.randint(1, 4))],
+                       [('q_oil', r.uniform(5000., 40000.)), ('num_oil_elements', 0)]][k]
             elif r.random() < 0.4:
                 which = r.choice(['num_oil_elements', 'num_gas_elements'])
                 pos = r.randrange(len(ops) + 1)
@@ -898,6 +951,8 @@ def blowout_sequences(ctx, r, n, lines, owners):
             zero0 = init['num_oil_elements'] > 0
             zero1 = final['num_oil_elements'] > 0
             flips = zero0 != zero1
+            ctx.blow_last.add(ops[-1][0])
+            ctx.blow_flips += int(flips)
             ctx.count('blowout sequence' + (' (oil bins switched on/off: q_type convention changes)' if flips else ''))
             if any(v == 0 for o, v in ops if o in ('num_oil_elements', 'num_gas_elements')):
                 ctx.count('blowout sequence switching bins to zero')
@@ -991,7 +1046,11 @@ def run(ctx, lean_ok):
     cache_histories(ctx, r, ctx.n(10, 150))
     profile_histories(ctx, r, ctx.n(40, 800), lines, owners)
     coefs_cases(ctx, r, ctx.n(40, 600), lines, owners)
-    blowout_sequences(ctx, r, ctx.n(16 + 14, 16 + 300), lines, owners)
+    blowout_sequences(ctx, r, ctx.n(17 + 14, 17 + 300), lines, owners)
+    missing = [o for o in OPS if o not in ctx.blow_last]
+    ctx.oblige('Blowout floors: every one of the 13 update methods is the LAST call of a compared sequence (missing: %r); '
+               '%d compared sequences change the flow-rate convention (oil bins switched on/off; floor 3)' % (missing, ctx.blow_flips),
+               not missing and ctx.blow_flips >= 3, 'generator floor not reached')
     # ---- ceilings: what the generators skip or what raises is bounded, never an open-ended counter
     for k, frac in (('blowout', 0.2), ('particle', 0.35), ('mixture-equilibrium', 0.35), ('cache-history', 0.1)):
         nsk, npl = ctx.skips.get(k, 0), max(ctx.planned.get(k, 0), 1)
@@ -1026,11 +1085,21 @@ def run(ctx, lean_ok):
                 if not close(list(resp[1]), after, 0.):
                     bad.append('caller\'s array after get_values: model=%r code=%r' % (resp[1], after))
         elif tag == 'coefs':
-            _t, after, cd, d = own
+            _t, after, cd, d, q = own
             if not isinstance(resp, list) or len(resp) != 2:
                 bad = ['driver answered %r' % (resp,)]
-            elif not close(list(resp[1]), after, 0.):
-                bad.append('caller\'s matrix after coefs (calc_delta=%d, %r): model=%r code=%r' % (cd, d, resp[1], after))
+            else:
+                # the caller's matrix after the call: exact when nothing may be written, 1e-10 against the INDEPENDENT
+                # group-contribution values when the routine writes them
+                written = bool(cd and VARIANT['aliased'])
+                if not close(list(resp[1]), after, 1e-10 if written else 0.):
+                    bad.append('caller\'s matrix after coefs (calc_delta=%d, %r): model=%r code=%r' % (cd, d, resp[1], after))
+                # the matrix the model says the mixing rule USES, checked through the routine's own output A
+                used = np.array(resp[0], dtype=float).reshape(q['nc'], q['nc'])
+                A_model = A_from_delta(q['T'], q['P'], q['m'], q['fm'], used)
+                if not close(A_model, q['A_real'], 1e-9):
+                    bad.append('interaction matrix used by the mixing rule (calc_delta=%d, %r): A from the model matrix=%r, A returned by coefs=%r'
+                               % (cd, d, A_model, q['A_real']))
         elif tag == 'blowout':
             bad = compare_blowout(own, resp)
         if bad:
